@@ -63,7 +63,7 @@ RULE = ("request stream = 0-4 frames (valid / undecodable / empty payload) + opt
         "(StreamReaderBufferedProtocol + socket adapter, harness = selector), a handler that only yields timeouts, read events "
         "one tick before / exactly at (both timer orders) / after the expiry of the yielded timeout; the handler must see the "
         "whole decoding of the stream.  One-chunk streams with every order of valid/malformed frames.  Request values include None and the "
-        "other falsy values (lf-falsy framing); handler generators native or class-based (non-native AsyncGenerator).  Strict and lenient "
+        "other falsy values (lf-falsy framing); handler generators native or class-based (non-native AsyncGenerator), re-raising GeneratorExit or returning on it.  Strict and lenient "
         "transports (recv after aclose).  "
         "Non-trivial = at least one generator restart with a request still to "
         "come, or a parse error thrown, or a timeout thrown, or the handler closes the client before the stream ends.")
@@ -72,10 +72,11 @@ TRUSTED = ["model of __client_coroutine / request receivers / ThrowAction / buil
            "in-memory listener/transport with arrival times on the deterministic loop (harness/c15.py) stand for the peer",
            "asyncio task/cancel-scope semantics (backend.timeout, cancel_shielded_coro_yield) are not modelled beyond "
            "'TimeoutError iff the deadline passes while the receiver waits for the transport' — validated by execution"]
-ASSUMPTIONS = ["the model is of ONE connection; independence of concurrent connections is checked by execution (pairs "
+ASSUMPTIONS = ["a generator that receives GeneratorExit re-raises it or returns; it does not yield again",
+               "the model is of ONE connection; independence of concurrent connections is checked by execution (pairs "
                "served by one server must reproduce the isolated per-connection runs), not proved",
                "handler code takes no virtual time; it echoes each request unless the client is closed",
-               "a handler never swallows GeneratorExit",
+               "a handler never yields again on GeneratorExit",
                "cancellation is only delivered while the transport waits with no data (C10 covers the data race)"]
 
 TICK = 1.0 / 1024
@@ -271,9 +272,10 @@ def classify(exc):
 
 
 class _Conn:
-    def __init__(self, acts, oc, proxy=False):
+    def __init__(self, acts, oc, proxy=False, exit_mode=0):
         self.acts = deque(acts)
         self.oc = oc
+        self.exit_mode = exit_mode  # on GeneratorExit the user generator re-raises (0) or simply returns (1)
         self.proxy = proxy      # generators handed to the server are class-based AsyncGenerator objects
         self.log = []
         self.counter = 0
@@ -340,6 +342,8 @@ class ScriptedHandler(AsyncStreamRequestHandler):
                 req = yield t
             except GeneratorExit:
                 cn.log.append([5, g])
+                if cn.exit_mode == 1:
+                    return          # a generator may finish on GeneratorExit instead of re-raising it: it is closed all the same
                 raise
             except Exception as exc:
                 thrown = exc
@@ -367,7 +371,8 @@ async def _main(conn_inputs, loop):
     for i, ci in enumerate(conn_inputs):
         port = 2222 + i
         transports.append(PeerTransport(ci[3], backend, loop, port, lenient=bool(ci[8]) if len(ci) > 8 else False))
-        conns[port] = _Conn(ci[4], ci[5], proxy=bool(ci[9]) if len(ci) > 9 else False)
+        conns[port] = _Conn(ci[4], ci[5], proxy=bool(ci[9]) if len(ci) > 9 else False,
+                            exit_mode=ci[10] if len(ci) > 10 else 0)
     listener = MemListener(backend, transports, loop)
     server = AsyncStreamServer(listener, protocol, max_recv_size=bufsize)
     rh = ScriptedHandler(conns, loop)
@@ -570,12 +575,12 @@ TMO = [[], [0], [4], [8]]
 ACTS = [[0, t] for t in TMO] + [[1], [2], [4]] + [[3, []], [3, [4]]]
 
 
-def mk(fr, buffered, peer, acts, oc, bufsize, lenient=0, proxy=0):
+def mk(fr, buffered, peer, acts, oc, bufsize, lenient=0, proxy=0, exit_mode=0):
     kind = fr["kinds"][1 if buffered else 0]
     cfg = list(fr["cfg"])
     if kind in (1, 3):
         cfg = cfg + [bufsize]
-    return [kind, cfg, fr["dec"], peer, acts, oc, bufsize, fr["impl"], lenient, proxy]
+    return [kind, cfg, fr["dec"], peer, acts, oc, bufsize, fr["impl"], lenient, proxy, exit_mode]
 
 
 def build_peer(chunks, rng, end):
@@ -665,7 +670,9 @@ def _single_cases(tier, rng, escalate):
                             tags.append("closes-before-first-yield")
                         proxy = int(rng.random() < 0.35)
                         tags.append("class-based-generators" if proxy else "native-generators")
-                        yield dict(input=mk(fr, buffered, peer, acts, oc, bufsize, lenient, proxy), tags=tags,
+                        exit_mode = int(rng.random() < 0.4)
+                        tags.append("returns-on-GeneratorExit" if exit_mode else "reraises-GeneratorExit")
+                        yield dict(input=mk(fr, buffered, peer, acts, oc, bufsize, lenient, proxy, exit_mode), tags=tags,
                                    nontrivial=bool(len(frames) >= 1 and (kinds - {0} or any(f in fr["bad"] for f in frames)
                                                                          or "finite-timeouts" in tags)))
 
